@@ -37,13 +37,17 @@ type c20Item struct {
 }
 
 type c20Query struct {
-	Grid   bool      `json:"grid,omitempty"`  // FROM g: the rows of t, two to an inner array (rows that are arrays themselves)
-	Order  string    `json:"order,omitempty"` // ORDER BY on a column the select list does not produce: rows are still evaluated in source order
-	Twice  bool      `json:"twice,omitempty"` // Exec is called a second time on the same Query
-	Items  []c20Item `json:"items"`
-	WhereK int       `json:"where_k"` // -1 none; else  a >= WhereK
-	Dual   bool      `json:"dual"`
-	SQL    string    `json:"sql"`
+	Grid   bool `json:"grid,omitempty"`   // FROM g: the rows of t, two to an inner array (rows that are arrays themselves)
+	Ragged bool `json:"ragged,omitempty"` // FROM r: the rows of t, every second one wrapped in an inner array of its own (objects and arrays side by side)
+	// nestedFirst makes the model evaluate the rows of a ragged source the way the engine is known to (the recorded
+	// finding): the rows inside inner arrays first, then the object rows. Used to recognise that finding only.
+	nestedFirst bool
+	Order       string    `json:"order,omitempty"` // ORDER BY on a column the select list does not produce: rows are still evaluated in source order
+	Twice       bool      `json:"twice,omitempty"` // Exec is called a second time on the same Query
+	Items       []c20Item `json:"items"`
+	WhereK      int       `json:"where_k"` // -1 none; else  a >= WhereK
+	Dual        bool      `json:"dual"`
+	SQL         string    `json:"sql"`
 }
 
 type c20Expect struct {
@@ -52,6 +56,10 @@ type c20Expect struct {
 	Rows2   [][]any          `json:"rows2"` // expected rows of the second Exec (nil: not executed twice)
 	Vars    []map[string]any `json:"vars"`  // expected caller map after each query
 	Init    map[string]any   `json:"init"`
+	// for a history over a ragged source (one query): what the recorded finding's evaluation order gives
+	AltRows  []any          `json:"alt_rows,omitempty"`
+	AltRows2 []any          `json:"alt_rows2,omitempty"`
+	AltVars  map[string]any `json:"alt_vars,omitempty"`
 }
 
 func (it c20Item) ksql() string {
@@ -164,8 +172,20 @@ func c20Model(q *c20Query, table []any, model map[string]any) (rows1, rows2 []an
 		rows1 = rows
 		rows = []any{}
 		var deferred []func()
-		for _, r := range src {
-			row := r.(map[string]any)
+		order := []int{}
+		for i := range src {
+			if !(q.Ragged && q.nestedFirst) || i%2 == 1 {
+				order = append(order, i)
+			}
+		}
+		for i := range src {
+			if q.Ragged && q.nestedFirst && i%2 == 0 {
+				order = append(order, i)
+			}
+		}
+		byIdx := map[int]any{}
+		for _, si := range order {
+			row := src[si].(map[string]any)
 			if q.WhereK >= 0 && row["a"].(float64) < float64(q.WhereK) {
 				continue
 			}
@@ -243,6 +263,7 @@ func c20Model(q *c20Query, table []any, model map[string]any) (rows1, rows2 []an
 				}
 			}
 			rows = append(rows, out)
+			byIdx[si] = out
 		}
 		// awaited reads and writes happen after the last row of this evaluation, in (row, item) order
 		for _, d := range deferred {
@@ -261,6 +282,22 @@ func c20Model(q *c20Query, table []any, model map[string]any) (rows1, rows2 []an
 					}
 				}
 				nested = append(nested, inner)
+			}
+			rows = nested
+		}
+		if q.Ragged {
+			// the result has the nesting of the source: rows at odd positions sit in an array of their own
+			nested := []any{}
+			for i := range src {
+				out, pass := byIdx[i]
+				switch {
+				case i%2 == 1 && pass:
+					nested = append(nested, []any{out})
+				case i%2 == 1:
+					nested = append(nested, []any{})
+				case pass:
+					nested = append(nested, out)
+				}
 			}
 			rows = nested
 		}
@@ -302,6 +339,7 @@ func genC20(t *rapid.T) *Bundle {
 		init[keys[0]] = rapid.SampledFrom([]any{"init", "1", float64(1), true}).Draw(t, "preset_value")
 	}
 	nq := rapid.IntRange(1, 4).Draw(t, "nqueries")
+	altModel := map[string]any{}
 	exp := c20Expect{Init: init}
 	model := map[string]any{}
 	for k, v := range init {
@@ -311,10 +349,18 @@ func genC20(t *rapid.T) *Bundle {
 	var ops []casefmt.Op
 	var sites []int
 	varCorunner := false
+	// a source that mixes objects and arrays of objects (every non-dual query of the history reads it)
+	ragged := rapid.IntRange(0, 9).Draw(t, "ragged_source") == 0
+	if ragged {
+		nq = 1
+	}
 	for qi := 0; qi < nq; qi++ {
 		q := c20Query{WhereK: -1}
 		q.Dual = rapid.IntRange(0, 5).Draw(t, "dual") == 0
 		q.Grid = !q.Dual && rapid.IntRange(0, 5).Draw(t, "grid") == 0
+		if ragged && !q.Dual {
+			q.Grid, q.Ragged = false, true
+		}
 		if !q.Dual && rapid.IntRange(0, 2).Draw(t, "has_where") == 0 {
 			q.WhereK = rapid.IntRange(0, 4).Draw(t, "where_k") * 10
 		}
@@ -417,10 +463,13 @@ func genC20(t *rapid.T) *Bundle {
 			q.SQL += "dual"
 		} else {
 			q.SQL += map[bool]string{false: "t", true: "g"}[q.Grid]
+			if q.Ragged {
+				q.SQL = strings.TrimSuffix(q.SQL, "t") + "r"
+			}
 			if q.WhereK >= 0 {
 				q.SQL += fmt.Sprintf(" WHERE a >= %d", q.WhereK)
 			}
-			if !q.Grid && rapid.IntRange(0, 4).Draw(t, "order_by") == 0 {
+			if !q.Grid && !q.Ragged && rapid.IntRange(0, 4).Draw(t, "order_by") == 0 {
 				cand := []string{}
 				for _, c := range []string{"id", "a"} {
 					if !usedCols[c] {
@@ -434,6 +483,16 @@ func genC20(t *rapid.T) *Bundle {
 			}
 		}
 		q.Twice = rapid.IntRange(0, 3).Draw(t, "exec_twice") == 0
+		if q.Ragged {
+			// (the history over a ragged source is this one query)
+			for k, v := range model {
+				altModel[k] = v
+			}
+			alt := q
+			alt.nestedFirst = true
+			exp.AltRows, exp.AltRows2 = c20Model(&alt, table, altModel)
+			exp.AltVars = altModel
+		}
 		rows1, rows := c20Model(&q, table, model)
 		snap := map[string]any{}
 		for k, v := range model {
@@ -450,7 +509,7 @@ func genC20(t *rapid.T) *Bundle {
 		ops = append(ops, casefmt.Op{Doc: 0, Vars: 0, Query: q.SQL, ExecTwice: q.Twice})
 	}
 	sim := drawSim(t, "")
-	c := casefmt.Case{Prop: "C20", Sim: sim, Docs: []json.RawMessage{rawDoc(map[string]any{"t": table, "g": c20Grid(table)})}, Vars: []map[string]any{init},
+	c := casefmt.Case{Prop: "C20", Sim: sim, Docs: []json.RawMessage{rawDoc(map[string]any{"t": table, "g": c20Grid(table), "r": c20Ragged(table)})}, Vars: []map[string]any{init},
 		Clients: []casefmt.Client{{Name: "client0", Ops: ops}}}
 	c.Stubs.Lat = drawLatencies(t, sites, 5)
 	tags := []string{}
@@ -460,7 +519,23 @@ func genC20(t *rapid.T) *Bundle {
 	if varCorunner {
 		tags = append(tags, "var_corunner")
 	}
+	if ragged {
+		tags = append(tags, "ragged")
+	}
 	return &Bundle{Prop: "C20", Kind: "history", Case: c, Expect: mustJSON(exp), Tags: tags}
+}
+
+// c20Ragged: the rows of the table, every second one in an inner array of its own.
+func c20Ragged(table []any) []any {
+	g := []any{}
+	for i, row := range table {
+		if i%2 == 1 {
+			g = append(g, []any{row})
+		} else {
+			g = append(g, row)
+		}
+	}
+	return g
 }
 
 func c20Grid(table []any) []any {
@@ -525,7 +600,12 @@ func evalC20(b *Bundle, r *Runner) []*Violation {
 					}
 				}
 			}
-			return []*Violation{mkViolation(b, cls, "", fmt.Sprintf("query %d of %d: %s\n history so far: %s\n model  %s\n engine %s", qi+1, len(exp.Queries), q, c20History(&exp, qi), canonText(want), compact(op.Rows)), o)}
+			site := ""
+			if exp.Queries[qi].Ragged && exp.AltRows != nil && jsonEqual(got, any(exp.AltRows)) {
+				// exactly what evaluating the rows of the inner arrays before the object rows gives
+				site = "ragged_nested_first"
+			}
+			return []*Violation{mkViolation(b, cls, site, fmt.Sprintf("query %d of %d: %s\n history so far: %s\n model  %s\n engine %s", qi+1, len(exp.Queries), q, c20History(&exp, qi), canonText(want), compact(op.Rows)), o)}
 		}
 		if string(op.Rows) != string(op.RowsAfter) && !exp.Queries[qi].Twice {
 			return []*Violation{mkViolation(b, "RESULT_CHANGED_AFTER_RETURN", "", q, o)}
@@ -539,6 +619,9 @@ func evalC20(b *Bundle, r *Runner) []*Violation {
 				return []*Violation{mkViolation(b, "VAR_QUERY_FAILED", "second_exec", fmt.Sprintf("query %d %q: the second Exec on the same Query: %s", qi, q, op.Exec2), o)}
 			}
 			if !jsonEqual(normJSON(op.Rows2), want2) {
+				if exp.Queries[qi].Ragged && exp.AltRows2 != nil && jsonEqual(normJSON(op.Rows2), any(exp.AltRows2)) {
+					return []*Violation{mkViolation(b, "REGISTER_READ", "ragged_nested_first", fmt.Sprintf("second Exec of %s\n model  %s\n engine %s", q, canonText(want2), compact(op.Rows2)), o)}
+				}
 				return []*Violation{mkViolation(b, "REGISTER_READ", "second_exec", fmt.Sprintf("query %d of %d, Exec called a second time on the same Query: %s\n history so far: %s\n model  %s\n engine %s", qi+1, len(exp.Queries), q, c20History(&exp, qi), canonText(want2), compact(op.Rows2)), o)}
 			}
 			r.Stats.probe("second_exec_on_same_query_compared")
@@ -549,7 +632,11 @@ func evalC20(b *Bundle, r *Runner) []*Violation {
 			delete(gm, "zz") // written by ASYNC co-runners in schedule order: not part of the register model
 		}
 		if !jsonEqual(gotVars, wantVars) {
-			return []*Violation{mkViolation(b, "REGISTER_FINAL_STATE", "", fmt.Sprintf("after query %d of %d: %s\n history so far: %s\n model map  %s\n caller map %s", qi+1, len(exp.Queries), q, c20History(&exp, qi), canonText(wantVars), compact(op.VarsAfter)), o)}
+			site := ""
+			if exp.Queries[qi].Ragged && exp.AltVars != nil && jsonEqual(gotVars, any(exp.AltVars)) {
+				site = "ragged_nested_first"
+			}
+			return []*Violation{mkViolation(b, "REGISTER_FINAL_STATE", site, fmt.Sprintf("after query %d of %d: %s\n history so far: %s\n model map  %s\n caller map %s", qi+1, len(exp.Queries), q, c20History(&exp, qi), canonText(wantVars), compact(op.VarsAfter)), o)}
 		}
 	}
 	if len(exp.Queries) > 1 {
